@@ -11,7 +11,7 @@ NRA_LEMMAS = [L_LIN]
 
 
 def extra_obligations(ctx):
-    return nra.run_lemmas("C08", "newton", NRA_LEMMAS, ctx)
+    return nra.run_lemmas("C08", "newton", NRA_LEMMAS + MULLER_LEMMAS, ctx)
 
 
 def scalar_unit():
@@ -179,8 +179,172 @@ pub open spec fn newton_update_ok(res: Seq<real>, tol: real) -> bool {
     return u
 
 
+# ---- Muller's method, verified at the complex instantiation N = Complex (shim type C) ----------------------------------------
+def _cm(x, y):
+    return (f"({x[0]} * {y[0]} - {x[1]} * {y[1]})", f"({x[0]} * {y[1]} + {x[1]} * {y[0]})")
+
+
+def _ca(x, y):
+    return (f"({x[0]} + {y[0]})", f"({x[1]} + {y[1]})")
+
+
+def _P(n):
+    return (n + "0", n + "1")
+
+
+def _eq(x, y):
+    return [f"{x[0]} == {y[0]}", f"{x[1]} == {y[1]}"]
+
+
+_a, _b, _c, _d, _e, _s, _p, _g, _t, _q = map(_P, "abcdespgtq")
+# a p^2 + b p e + c g  (p = s e, g = e^2): the parabola's value at s, multiplied by e^2
+_RHS = _ca(_ca(_cm(_a, _cm(_p, _p)), _cm(_cm(_b, _p), _e)), _cm(_c, _g))
+_V = lambda names: [n + i for n in names for i in "01"]
+# complex numbers as pairs of reals; every hypothesis is one complex equation split into its two real components
+L_ZD = nra.Lemma("lemma_no_zero_divisors", _V("tg"), _eq(_cm(_t, _g), ("0", "0")) + ["g0 != 0 or g1 != 0"], "t0 == 0 and t1 == 0",
+                 note="the complex numbers have no zero divisors: t g = 0 and g != 0 imply t = 0")
+L_EXP = nra.Lemma("lemma_parabola_times_esq", _V("abcespgtq"), _eq(_p, _cm(_s, _e)) + _eq(_g, _cm(_e, _e)) + _eq(_q, _cm(_s, _s)) + _eq(_t, _ca(_ca(_cm(_a, _q), _cm(_b, _s)), _c)),
+                  f"{_cm(_t, _g)[0]} == {_RHS[0]} and {_cm(_t, _g)[1]} == {_RHS[1]}",
+                  note="ring identity: (a s^2 + b s + c) e^2 = a (s e)^2 + b (s e) e + c e^2")
+
+
+def _vanish(sign, name):
+    e_def = ((f"(b0 {sign} d0)"), (f"(b1 {sign} d1)"))
+    four_ca = _cm(_c, _a)
+    dd, bb = _cm(_d, _d), _cm(_b, _b)
+    hyps = (_eq(_e, e_def) + _eq(_p, ("(0 - 2 * c0)", "(0 - 2 * c1)")) + _eq(_g, _cm(_e, _e))
+            + [f"{dd[0]} == {bb[0]} - 4 * {four_ca[0]}", f"{dd[1]} == {bb[1]} - 4 * {four_ca[1]}"])
+    return nra.Lemma(name, _V("abcdepg"), hyps, f"{_RHS[0]} == 0 and {_RHS[1]} == 0",
+                     note=f"with s e = -2c, e = b {sign} d and d^2 = b^2 - 4ca:  a (s e)^2 + b (s e) e + c e^2 = c (4ac - b^2 + d^2) = 0")
+
+
+L_VP, L_VM = _vanish("+", "lemma_parabola_vanishes_plus"), _vanish("-", "lemma_parabola_vanishes_minus")
+MULLER_LEMMAS = [L_ZD, L_EXP, L_VP, L_VM]
+
+MULLER_SPEC = r'''
+pub open spec fn cs(p: Polynomial) -> Seq<(real, real)> { Seq::new(p.coefficients@.len(), |i: int| p.coefficients@[i]@) }
+impl Polynomial { pub open spec fn wf(&self) -> bool { self.coefficients@.len() >= 1 } }
+pub open spec fn chs(s: Seq<(real, real)>, j: int, x: (real, real)) -> (real, real) decreases s.len() - j {
+    if j < 0 || j >= s.len() { czero() } else { cadd(s[j], cmul(x, chs(s, j + 1, x))) }
+}
+// the value of the polynomial with coefficient sequence s at x
+pub open spec fn pval(s: Seq<(real, real)>, x: (real, real)) -> (real, real) { chs(s, 0, x) }
+// callees: CONTRACTS ONLY (make_complex is proved in C14, evaluate = Horner value in C13)
+impl Polynomial {
+    #[verifier::external_body]
+    pub fn make_complex(&self) -> (r: Polynomial) requires self.wf() ensures r.wf(), cs(r) == cs(*self) { unimplemented!() }
+    #[verifier::external_body]
+    pub fn evaluate(&self, x: C) -> (r: C) requires self.wf() ensures r@ == pval(cs(*self), x@) { unimplemented!() }
+}
+// ---- one Muller step from the three latest iterates x0, x1, x2: divided differences, the parabola's coefficients, the step ----
+pub open spec fn m_d1(s: Seq<(real, real)>, x0: (real, real), x1: (real, real)) -> (real, real) { cdiv(csub(pval(s, x1), pval(s, x0)), csub(x1, x0)) }
+pub open spec fn m_a(s: Seq<(real, real)>, x0: (real, real), x1: (real, real), x2: (real, real)) -> (real, real) {
+    cdiv(csub(m_d1(s, x1, x2), m_d1(s, x0, x1)), cadd(csub(x2, x1), csub(x1, x0)))
+}
+pub open spec fn m_b(s: Seq<(real, real)>, x0: (real, real), x1: (real, real), x2: (real, real)) -> (real, real) {
+    cadd(m_d1(s, x1, x2), cmul(csub(x2, x1), m_a(s, x0, x1, x2)))
+}
+pub open spec fn m_disc(s: Seq<(real, real)>, x0: (real, real), x1: (real, real), x2: (real, real)) -> (real, real) {
+    let b = m_b(s, x0, x1, x2);
+    csqrt(csub(cmul(b, b), cmul(cmul((4real, 0real), pval(s, x2)), m_a(s, x0, x1, x2))))
+}
+// the denominator of larger modulus
+pub open spec fn m_den(s: Seq<(real, real)>, x0: (real, real), x1: (real, real), x2: (real, real)) -> (real, real) {
+    let b = m_b(s, x0, x1, x2); let d = m_disc(s, x0, x1, x2);
+    if cabs(csub(b, d)) < cabs(cadd(b, d)) { cadd(b, d) } else { csub(b, d) }
+}
+pub open spec fn m_step(s: Seq<(real, real)>, x0: (real, real), x1: (real, real), x2: (real, real)) -> (real, real) {
+    cdiv(cmul((-2real, 0real), pval(s, x2)), m_den(s, x0, x1, x2))
+}
+// C08: the step is a root of the parabola  a h^2 + b h + c  (c = P(x2)) whenever its denominator is not zero; that parabola
+// interpolates P at x2 (h = 0) by construction
+pub proof fn lemma_muller_step(s: Seq<(real, real)>, x0: (real, real), x1: (real, real), x2: (real, real))
+    requires m_den(s, x0, x1, x2) != czero()
+    ensures ({ let h = m_step(s, x0, x1, x2); cadd(cadd(cmul(m_a(s, x0, x1, x2), cmul(h, h)), cmul(m_b(s, x0, x1, x2), h)), pval(s, x2)) == czero() })
+{
+    let a = m_a(s, x0, x1, x2); let b = m_b(s, x0, x1, x2); let c = pval(s, x2); let d = m_disc(s, x0, x1, x2); let e = m_den(s, x0, x1, x2);
+    let h = m_step(s, x0, x1, x2);
+    let z = csub(cmul(b, b), cmul(cmul((4real, 0real), c), a));
+    axiom_csqrt(z);
+    assert(cmul(d, d) == z);
+    let num = cmul((-2real, 0real), c);
+    axiom_cdiv(num, e);
+    let p = cmul(h, e); let g = cmul(e, e); let q = cmul(h, h);
+    let t = cadd(cadd(cmul(a, q), cmul(b, h)), c);
+    assert(p == num && num == (-2real * c.0, -2real * c.1));
+    // the discriminant, flattened:  d d == b b - 4 (c a)
+    assert(cmul((4real, 0real), c) == (4real * c.0, 4real * c.1));
+    assert(cmul(cmul((4real, 0real), c), a) == ((4real * c.0) * a.0 - (4real * c.1) * a.1, (4real * c.0) * a.1 + (4real * c.1) * a.0));
+    assert((4real * c.0) * a.0 == 4real * (c.0 * a.0)) by(nonlinear_arith);
+    assert((4real * c.1) * a.1 == 4real * (c.1 * a.1)) by(nonlinear_arith);
+    assert((4real * c.0) * a.1 == 4real * (c.0 * a.1)) by(nonlinear_arith);
+    assert((4real * c.1) * a.0 == 4real * (c.1 * a.0)) by(nonlinear_arith);
+    assert(cmul(d, d) == (d.0 * d.0 - d.1 * d.1, d.0 * d.1 + d.1 * d.0));
+    assert(cmul(b, b) == (b.0 * b.0 - b.1 * b.1, b.0 * b.1 + b.1 * b.0));
+    assert(cmul(c, a) == (c.0 * a.0 - c.1 * a.1, c.0 * a.1 + c.1 * a.0));
+    // definitions, flattened
+    assert(p == (h.0 * e.0 - h.1 * e.1, h.0 * e.1 + h.1 * e.0));
+    assert(g == (e.0 * e.0 - e.1 * e.1, e.0 * e.1 + e.1 * e.0));
+    assert(q == (h.0 * h.0 - h.1 * h.1, h.0 * h.1 + h.1 * h.0));
+    assert(cmul(a, q) == (a.0 * q.0 - a.1 * q.1, a.0 * q.1 + a.1 * q.0));
+    assert(cmul(b, h) == (b.0 * h.0 - b.1 * h.1, b.0 * h.1 + b.1 * h.0));
+    lemma_parabola_times_esq(a.0, a.1, b.0, b.1, c.0, c.1, e.0, e.1, h.0, h.1, p.0, p.1, g.0, g.1, t.0, t.1, q.0, q.1);
+    if cabs(csub(b, d)) < cabs(cadd(b, d)) { lemma_parabola_vanishes_plus(a.0, a.1, b.0, b.1, c.0, c.1, d.0, d.1, e.0, e.1, p.0, p.1, g.0, g.1); }
+    else { lemma_parabola_vanishes_minus(a.0, a.1, b.0, b.1, c.0, c.1, d.0, d.1, e.0, e.1, p.0, p.1, g.0, g.1); }
+    // e != 0 ==> e e != 0 ==> t == 0
+    if g == czero() { lemma_no_zero_divisors(e.0, e.1, e.0, e.1); assert(false); }
+    lemma_no_zero_divisors(t.0, t.1, g.0, g.1);
+    assert(t == czero());
+}
+// what an Ok result is: the last iterate plus a Muller step of modulus <= tol, taken from three iterates of which consecutive ones differ
+pub open spec fn muller_result(s: Seq<(real, real)>, p: (real, real), tol: real) -> bool {
+    exists|x0: (real, real), x1: (real, real), x2: (real, real)| #![trigger m_step(s, x0, x1, x2)] x0 != x1 && x1 != x2 && p == cadd(x2, m_step(s, x0, x1, x2)) && cabs(m_step(s, x0, x1, x2)) <= tol
+}
+'''
+
+
+def muller_cfg():
+    from vx.extract import Config
+    c = Config(type_subst=[("Polynomial<Complex<<N as ComplexField>::RealField>>", "Polynomial"), ("Polynomial<Complex<N::RealField>>", "Polynomial"),
+                           ("Complex<<N as ComplexField>::RealField>", "C"), ("Complex::<<N as ComplexField>::RealField>", "C"),
+                           ("Complex<N::RealField>", "C"), ("Complex::<N::RealField>", "C"),
+                           ("<N as ComplexField>::RealField", "R"), ("N::RealField", "R"),
+                           ("Polynomial<N>", "Polynomial"), ("Polynomial::<N>", "Polynomial"),
+                           ("N", "C"), ("f64", "R")])
+    return c
+
+
+def muller_unit():
+    u = Unit("C08", "muller", preludes=("real", "stdx", "cx", "cxdivt"), cfg=muller_cfg())
+    u.crate_attrs = []
+    u.item("src/polynomial/mod.rs", "struct", "Polynomial")
+    u.spec("".join(l.verus_stub() for l in MULLER_LEMMAS))
+    u.spec(MULLER_SPEC)
+    f = u.fn("src/roots/polynomial.rs", "muller_polynomial")
+    # three starting points, consecutive ones distinct (the third is compared by its real part: the code builds it from initial.2's real
+    # and initial.1's imaginary part)
+    f.req("poly.wf()", "tol@ >= 0real", "initial.0@ != initial.1@", "initial.1@.0 != initial.2@.0")
+    f.ens(# an Ok result is the last iterate plus a Muller step (computed from the three latest iterates) of modulus <= tol;
+          # lemma_muller_step: that step is a root of the interpolating parabola
+          "res is Ok ==> muller_result(cs(*poly), res->Ok_0@, tol@)",
+          # the iteration is capped
+          "n_max == 0 ==> res is Err")
+    X = "cs(*vx_p0)"
+    f.hint("begin", "let ghost vx_p0 = poly;")
+    f.loop(1, invariant=[
+        "n <= n_max", "poly.wf()", f"cs(poly) == {X}",
+        "h_1@ == csub(poly_1@, poly_0@)", "h_2@ == csub(poly_2@, poly_1@)",
+        f"poly_2_evaluated@ == pval({X}, poly_2@)",
+        f"delta_1@ == m_d1({X}, poly_0@, poly_1@)", f"delta_2@ == m_d1({X}, poly_1@, poly_2@)",
+        f"delta@ == m_a({X}, poly_0@, poly_1@, poly_2@)",
+        "negtwo@ == -2real && four@ == 4real", "tol@ >= 0real", "poly_0@ != poly_1@ && poly_1@ != poly_2@"],
+        decreases="n_max - n")
+    f.hint("before: if step.abs() <= tol", f"proof {{ assert(step@ == m_step({X}, poly_0@, poly_1@, poly_2@)); axiom_cabs(step@); }}")
+    return u
+
+
 def units(ctx):
-    return [scalar_unit(), system_unit(), general_unit()]
+    return [scalar_unit(), system_unit(), general_unit(), muller_unit()]
 
 
 DECIDED = [
@@ -189,12 +353,18 @@ DECIDED = [
     "jac_finite_diff: entry (r, c) of the result is (F(x + h e_c)_r - F(x - h e_c)_r) / (2h) for every r, c -- a subtraction, not a sum -- and x is restored",
     "secant: a singular finite-difference Jacobian -> Err; a start exactly on a root (F(x0) = 0) with a non-singular finite-difference Jacobian is returned as Ok(x0); loop bounded by n_max",
     "newton_polynomial: an Ok result is a Newton update g - p(g)/p'(g) whose size |p(g)/p'(g)| is within the tolerance (not a difference of norms); a polynomial of degree 1 is solved exactly from any start in one update (n_max >= 2); n_max == 0 -> Err; bounded by n_max",
+    "muller_polynomial (unit muller, complex instantiation): an Ok result is x2 + s where (x0, x1, x2) are the three latest iterates (consecutive ones distinct), s is the Muller step computed from them -- "
+    "divided differences d1, d2, second difference a, b = d2 + (x2 - x1) a, denominator b +- sqrt(b^2 - 4 P(x2) a) of larger modulus, s = -2 P(x2) / denominator -- and |s| <= tol; "
+    "lemma_muller_step (Verus + four NRA lemmas over pairs of reals): whenever the denominator is not zero, s is a root of the interpolating parabola a h^2 + b h + P(x2); n_max == 0 -> Err; bounded by n_max",
     "steffensen: n_max == 0 -> Err; a start that is a fixed point to the tolerance is returned as Ok instead of dividing 0 by 0; an Ok result is either G(p) with |G(p) - p| <= tol or within tol of the previous iterate; bounded by n_max",
 ]
 NOT_DECIDED = [
     "convergence on NON-affine systems from a start inside the convergence region (quadratic convergence is an analytic statement about a neighbourhood; no contract over exact reals expresses 'inside the convergence region')",
     "secant: the Broyden (Sherman-Morrison) updates inside the loop: the row-vector / outer-product operations are typed but carry no contract, so nothing about iterates after the first is decided (in particular 'affine systems are solved' for secant rests on jac_finite_diff's contract only)",
-    "muller_polynomial (complex arithmetic with square roots; not extracted)",
+    "muller_polynomial: that the iteration converges and the returned number is a root of the POLYNOMIAL to a residual bound (analytic); division by a vanishing denominator (b +- d == 0, or the new iterate "
+    "coinciding with the one before last) is not excluded -- the contract then says nothing about that step (complex division is total in this unit, its value at 0 unspecified); "
+    "the real instantiation N = f64 (verified at N = Complex, where initial.k.real()/imaginary() are the components). Observation, not a violation of C08: the third starting value is built from "
+    "initial.2's real part and initial.1's IMAGINARY part (src/roots/polynomial.rs:102); the contract does not constrain the starting values",
     "steffensen converging on a contraction to its fixed point; tolerances near machine precision (exact reals)",
     "NaN / panic freedom in floating point",
 ]
@@ -204,4 +374,6 @@ ASSUMPTIONS = [
     "rule R25: `fn(N) -> N` is verified as `impl Fn(R) -> R`",
     "rules R22/R22b/R22c: m[(i,j)] = e, v[i] += e, v[i] reads and v += e on nalgebra values are spelled as shim method calls",
     "side lemma lemma_newton_step_linear discharged by z3/cvc5 (NRA) and used as an external_body proof fn",
+    "muller: prelude/cx.rs + cxdivt.rs (complex numbers as exact pairs; division total, specified for non-zero divisors only; sqrt by what it inverts); Polynomial::make_complex / evaluate as contracts only "
+    "(proved in C14 / C13); NRA lemmas lemma_no_zero_divisors, lemma_parabola_times_esq, lemma_parabola_vanishes_plus/minus discharged by z3 (cvc5, z3 5.1 in the thorough tier)",
 ]
